@@ -283,7 +283,7 @@ pub fn check(case: &Case, ctx: &mut CaseCtx) {
                             peer::response(recs, vec![])
                         }
                         Traffic::Flap { ty } => {
-                            let sv = mk_svc(*ty, 1_000_007); // (names of their own: no overlap with the other floods)
+                            let sv = mk_svc(*ty, 1_000_007 + (*ty % 3) as u32); // (names of their own, per type: no overlap with the other floods, nor between a browsed and a foreign type)
                             if *ty % 3 < 2 && browsed.contains(&(*ty % 3)) {
                                 needed = 4;
                                 needed_for = *ty % 3;
